@@ -203,7 +203,8 @@ Definition codec_law (enc : codec -> Z -> bytes -> bytes) (dec : codec -> stream
   forall c l b, dec c (enc c l b, E_EOF) = DStream (b, E_EOF).
 
 (* the same request declaring another length; an outcome with the declared length blanked *)
-Definition set_cl (w : wreq) (cl : Z) : wreq := {| w_ce := w_ce w; w_body := w_body w; w_cl := cl |}.
+Definition set_cl (w : wreq) (cl : Z) : wreq :=
+  {| w_ce := w_ce w; w_body := w_body w; w_cl := cl; w_rewind := w_rewind w |}.
 Definition strip_cl (o : sout) : sout :=
   match o with Handled ce _ s => Handled ce 0 s | _ => o end.
 
@@ -398,7 +399,7 @@ Section Codec.
     client_validate cc = true -> is_compressed cc.(c_type) = true -> writer_codec cc.(c_type) = Some c ->
     hget r.(q_ce) = s_empty -> body_ok r = true ->
     let buf := enc c (writer_level c (effective_level cc.(c_level))) (body_bytes r.(q_body)) in
-    client cc r = CSent {| w_ce := r.(q_ce) ++ [cc.(c_type)]; w_body := buf; w_cl := blen buf |}.
+    client cc r = CSent {| w_ce := r.(q_ce) ++ [cc.(c_type)]; w_body := buf; w_cl := blen buf; w_rewind := Some buf |}.
   Proof.
     intros Hv Hc Hw He Hb. unfold Model.client. rewrite Hv, Hc, Hw. simpl.
     unfold round_trip. rewrite He. simpl. unfold compress. unfold body_ok in Hb.
@@ -416,6 +417,34 @@ Section Codec.
     unfold round_trip. rewrite He. simpl. unfold compress. unfold body_ok in Hb.
     destruct (q_body r); [|discriminate].
     destruct (q_rerr r); [reflexivity|]. destruct (q_cerr r); [reflexivity|discriminate].
+  Qed.
+
+  (* ---- transport-level replay --------------------------------------------------------------------- *)
+  (* whatever the client sends: if the transport can rewind the body at all, the replayed request is
+     the very same request (same header values, same bytes, same declared length) *)
+  Lemma replay_same_request_l cc r w w' :
+    client cc r = CSent w -> replay w = Some w' -> w' = w.
+  Proof.
+    assert (P : forall r w', replay (plain r) = Some w' -> w' = plain r).
+    { intros r0 w0. unfold replay, plain. simpl. destruct (q_body r0) as [b|]; [|discriminate].
+      destruct (q_stream r0); [discriminate|]. simpl. now intros [= <-]. }
+    unfold Model.client.
+    destruct (client_validate cc); simpl; [|discriminate].
+    destruct (is_compressed (c_type cc)); [|intros [= <-]; apply P].
+    destruct (writer_codec (c_type cc)) as [c|]; [|discriminate].
+    unfold round_trip. destruct (negb _); [intros [= <-]; apply P|].
+    destruct (compress enc c _ r) as [buf|]; [|discriminate].
+    intros [= <-]. unfold replay. simpl. now intros [= <-].
+  Qed.
+
+  (* a compressed request can always be replayed *)
+  Lemma compressed_request_replayable_l cc r c w :
+    client_validate cc = true -> is_compressed cc.(c_type) = true -> writer_codec cc.(c_type) = Some c ->
+    hget r.(q_ce) = s_empty -> client cc r = CSent w -> replay w = Some w.
+  Proof.
+    intros Hv Hc Hw He. unfold Model.client. rewrite Hv, Hc, Hw. simpl.
+    unfold round_trip. rewrite He. simpl. destruct (compress enc c _ r) as [buf|]; [|discriminate].
+    intros [= <-]. reflexivity.
   Qed.
 
   (* ---- round trip ---------------------------------------------------------------------------------- *)
@@ -439,6 +468,26 @@ Section Codec.
     apply str_mem_In in Hin. rewrite Hin. rewrite (writer_reader_agree _ _ Hw). simpl.
     subst b wire. rewrite max_bytes_fits by exact Hwire.
     rewrite codec_ok. now rewrite max_bytes_fits by exact Hb.
+  Qed.
+
+  (* the round trip survives any number of transport-level replays: the request that is sent is its own
+     replay, and the server answers it as stated *)
+  Lemma roundtrip_under_replay_l cc sc r c :
+    client_validate cc = true -> is_compressed cc.(c_type) = true -> writer_codec cc.(c_type) = Some c ->
+    r.(q_ce) = [] -> body_ok r = true ->
+    In cc.(c_type) (eff_algs sc) -> ~ In cc.(c_type) (map fst sc.(s_custom)) ->
+    let b := body_bytes r.(q_body) in
+    let wire := enc c (writer_level c (effective_level cc.(c_level))) b in
+    (Z.of_nat (List.length b) <= eff_max sc)%Z ->
+    (Z.of_nat (List.length wire) <= eff_max sc)%Z ->
+    exists w, client cc r = CSent w /\ replay w = Some w /\ server sc w = Handled [] (-1) (b, E_EOF).
+  Proof.
+    intros Hv Hc Hw Hce Hok Hin Hcu b wire Hb Hwire.
+    pose proof (roundtrip_l cc sc r c Hv Hc Hw Hce Hok Hin Hcu Hb Hwire) as RT.
+    assert (He : hget (q_ce r) = s_empty) by (rewrite Hce; reflexivity).
+    pose proof (client_compresses_l cc r c Hv Hc Hw He Hok) as CL. cbv zeta in CL.
+    eexists. split; [exact CL|]. split; [reflexivity|].
+    unfold Model.e2e in RT. rewrite CL in RT. now injection RT.
   Qed.
 
   (* default server settings (nil algorithm list, no custom decoders): every compressing type a
